@@ -150,6 +150,82 @@ Theorem C15_providers_result :
 Proof. exact providers_result_reach. Qed.
 Print Assumptions C15_providers_result.
 
+(* FIND_NODE success reports exactly the k closest of all peers that answered (all of them when
+   fewer than k answered): a peer that answered and is not reported is strictly farther than
+   every reported peer, and in that case exactly k peers are reported. Together with
+   C15_find_result (reported peers answered, strictly sorted, at most k) this determines the list. *)
+Theorem C15_find_topk :
+  forall c seeds es now l,
+  dist_inj c -> ~ In (c_local c) seeds -> c_kind c = KFind ->
+  let s := fst (grun c (init c seeds) (ghost0 seeds) es) in
+  let g := snd (grun c (init c seeds) (ghost0 seeds) es) in
+  snd (next_action c s now) = AFound l ->
+  forall q, In q (g_answered g) -> ~ In q l ->
+    N.of_nat (length l) = c_k c /\ forall w, In w l -> c_dist c w < c_dist c q.
+Proof. exact find_topk_reach. Qed.
+Print Assumptions C15_find_topk.
+
+(* merge_and_sort_providers: every provider peer appears exactly once, the list is strictly
+   sorted by distance, and the addresses of a peer are exactly the duplicate-free sorted union
+   of everything reported for it *)
+Theorem C15_merge_spec :
+  forall c l,
+  dist_inj c ->
+  let m := merge_providers c l in
+  NoDup (map fst m) /\
+  (forall p, In p (map fst m) <-> In p (map fst l)) /\
+  dsorted c (map fst m) /\
+  (forall p al, In (p, al) m ->
+     al = addr_set (addrs_of p l) /\ asorted al /\ forall x, In x al <-> In x (addrs_of p l)).
+Proof. exact merge_spec. Qed.
+Print Assumptions C15_merge_spec.
+
+(* Closed loop. `drive fuel c E false (init c seeds)` is the event history produced by the engine
+   together with an adaptive environment E that sees the whole query state and decides, turn by
+   turn, to answer (with any reply) or fail an outstanding request, or to let next_action run at
+   a time of its choice. E is fair when it only resolves outstanding requests and, once
+   next_action has returned nothing while a request is outstanding, resolves one before calling
+   next_action again. Under EVERY fair environment, over a universe of n peers, the lookup is
+   finished after at most 8n+2 events and has emitted exactly one terminal action. (The history
+   is an ordinary `run` history, so all theorems above apply to it.) *)
+Theorem C15_closed_loop :
+  forall c U E seeds fuel,
+  1 <= c_alpha c -> ~ In (c_local c) seeds -> (forall p, In p seeds -> In p U) -> fair U E ->
+  (8 * length U + 2 <= fuel)%nat ->
+  let es := drive fuel c E false (init c seeds) in
+  done (fst (run c (init c seeds) es)) = true /\
+  length (terminals (snd (run c (init c seeds) es))) = 1%nat /\
+  (length es <= 8 * length U + 2)%nat.
+Proof. exact closed_loop. Qed.
+Print Assumptions C15_closed_loop.
+
+(* fairness is satisfiable: the environment that fails the oldest outstanding request whenever
+   the engine is idle is fair for every universe *)
+Theorem C15_fair_env_exists : forall U, fair U env_fail_all.
+Proof. exact env_fail_all_fair. Qed.
+Print Assumptions C15_fair_env_exists.
+
+(* Several queries in one QueryEngine: whatever the polling order and interleaving, query i ends
+   in exactly the state it would reach alone under the sub-sequence of events that reached it —
+   so every single-query theorem of this file holds for each query of a shared engine. *)
+Theorem C15_queries_independent :
+  forall ms eng i c s,
+  nth_error eng i = Some (c, s) ->
+  nth_error (fst (mrun eng ms)) i = Some (c, fst (run c s (events_of i (snd (mrun eng ms))))).
+Proof. exact queries_independent. Qed.
+Print Assumptions C15_queries_independent.
+
+(* next_peer_action hands out a message only for a peer that next_action already sent the
+   request to and that is still outstanding: it never contacts a new peer *)
+Theorem C15_peer_action :
+  forall c seeds es p,
+  dist_inj c -> ~ In (c_local c) seeds ->
+  let s := fst (grun c (init c seeds) (ghost0 seeds) es) in
+  let g := snd (grun c (init c seeds) (ghost0 seeds) es) in
+  peer_msg s p = true -> In p (g_sent g) /\ In p (map fst (pend s)) /\ done s = false.
+Proof. exact peer_msg_sent. Qed.
+Print Assumptions C15_peer_action.
+
 (* the history fields are functions of the emitted actions: g_sent is the list of SendMessage peers *)
 Theorem C15_sent_is_sends :
   forall c es s g, g_sent (snd (grun c s g es)) = g_sent g ++ sends (snd (run c s es)).
@@ -170,4 +246,12 @@ Example C15_nonvacuous :
              ENext 1; EResp 1 (mkReply [] None []); EResp 2 (mkReply [3] None []); ENext 2; ENext 3] in
   snd (run c (init c [4; 3]) es) =
     [ASend 3; ASend 4; ANone; ANone; ASend 1; ANone; ASend 2; ANone; ANone; AFound [1; 2]; ANone].
+Proof. vm_compute. reflexivity. Qed.
+
+(* non-vacuity of the closed loop: GET_VALUE (quorum 2 of k = 3, alpha = 2) over four peers, every
+   request failed by the environment: 3 sends, 3 failures, then QueryFailed *)
+Example C15_closed_loop_nonvacuous :
+  let c := mkCfg KRecord 3 2 5 0 2 0 [] (fun p => p) in
+  snd (run c (init c [1; 2; 3]) (drive 34 c env_fail_all false (init c [1; 2; 3]))) =
+    [ASend 1; ASend 2; ANone; ANone; ASend 3; ANone; ANone; ANone; ANone; AFailed].
 Proof. vm_compute. reflexivity. Qed.
